@@ -1,11 +1,3 @@
-// Package c04 decides C04 (RTSP framing round-trips for any chunking and any
-// byte carrier) by stream simulation (DESIGN 3.3): the real conn.Conn writer on
-// one end of a simulated stream, the real conn.Conn reader on the other end, the
-// scheduler partitioning the byte stream into reads, three carriers (direct,
-// HTTP tunnel = real client tunnel writer + real server tunnel / base64 stream
-// reader, WebSocket = real gorilla connection pair + the library's message
-// reader / writer), plus separate truncation, corruption and over-limit
-// configurations and an end-to-end configuration through a real Client and Server.
 package c04
 
 import (
@@ -67,9 +59,9 @@ type Fault struct {
 type Over struct {
 	Kind   string `json:"kind"` // hdr_count | key_len | val_len | url_len | method_len | body_len | cl_huge
 	Dir    string `json:"dir"`
-	Prefix int    `json:"prefix"`       // good elements in front of it (taken from the stream)
-	N      int    `json:"n"`            // amount beyond the limit
-	Tail   int    `json:"tail"`         // bytes that keep following
+	Prefix int    `json:"prefix"`        // good elements in front of it (taken from the stream)
+	N      int    `json:"n"`             // amount beyond the limit
+	Tail   int    `json:"tail"`          // bytes that keep following
 	Res    bool   `json:"res,omitempty"` // carried by a response
 	ID     uint64 `json:"id"`
 	CL     string `json:"cl,omitempty"` // Content-Length text for cl_huge
@@ -336,11 +328,11 @@ func genHeavy(r *core.Rand) Elem {
 		e.K, e.M, e.U = "res", "", ""
 		e.SC, e.SM = genStatus(r), genMsg(r)
 	}
-	switch r.Intn(7) {
+	switch r.Intn(8) {
 	case 0, 1: // big body
 		e.B = r.Pick(131072, 131072, 131071, 65536, 65537, r.Range(65536, 131072), r.Range(100000, 131072))
 		e.NH = r.Range(0, 8)
-	case 2: // biggest frame
+	case 2, 7: // biggest frame
 		e = Elem{ID: e.ID, K: "frm", Ch: r.Pick(0, 1, 255, r.Intn(256)), P: r.Pick(65535, 65535, 65534, r.Range(60000, 65535)), BS: r.Intn(4)}
 	case 3: // header count at the bound
 		e.NH = r.Pick(255, 255, 254, r.Range(200, 255))
@@ -537,7 +529,7 @@ func gen(seed uint64, tier string) Scenario {
 			if r.Bool(0.5) {
 				op.Path += "/" + genSeg(r)
 			}
-			if i == 0 {
+			if i == 0 && sc.Carrier == "http" {
 				// the first URL also becomes the request target of the HTTP tunnel's GET / POST:
 				// establishing the carrier is not part of C04 (see f.Excluded), so it gets a
 				// path without escapes or sub-delimiters
